@@ -31,7 +31,7 @@ func (p *Prog) directiveKeysRead() map[string]string {
 		eachInstr(fn, func(in ssa.Instruction) {
 			// html.Attribute{Key: "const", ...} literals and Key == "const" comparisons
 			if st, ok := in.(*ssa.Store); ok {
-				if fv := fieldVar(st.Addr); fv != nil && fv.Name() == "Key" && fv.Pkg() != nil && fv.Pkg().Path() == "golang.org/x/net/html" {
+				if fv := fieldVar(st.Addr); fv != nil && fieldIs(fv, "Key") && fv.Pkg() != nil && fv.Pkg().Path() == "golang.org/x/net/html" {
 					if k, ok := constString(st.Val); ok {
 						out[k] = shortName(fn) + " at " + p.instrPos(st)
 					}
@@ -39,7 +39,7 @@ func (p *Prog) directiveKeysRead() map[string]string {
 			}
 			if b, ok := in.(*ssa.BinOp); ok && b.Op == token.EQL {
 				if k, ok := constString(b.Y); ok {
-					if f := loadedField(b.X); f != nil && f.Name() == "Key" {
+					if f := loadedField(b.X); f != nil && fieldIs(f, "Key") {
 						out[k] = shortName(fn) + " at " + p.instrPos(b)
 					}
 				}
@@ -219,7 +219,7 @@ func init() {
 			for _, f := range p.Funcs {
 				eachInstr(f, func(in ssa.Instruction) {
 					if mu, ok := in.(*ssa.MapUpdate); ok {
-						if fld := loadedField(mu.Map); fld != nil && fld.Name() == "templateCache" {
+						if fld := loadedField(mu.Map); fld != nil && fieldIs(fld, "templateCache") {
 							updates = append(updates, mu)
 						}
 					}
@@ -348,7 +348,7 @@ func init() {
 				// hit returns: results loaded from the cached entry
 				hit := false
 				for _, o := range p.origins(r.Results[1], OriginOpts{}) {
-					if f := loadedField(o); f != nil && f.Name() == "dom" {
+					if f := loadedField(o); f != nil && fieldIs(f, "dom") {
 						hit = true
 					}
 				}
@@ -468,7 +468,7 @@ func init() {
 				if !ok {
 					return
 				}
-				if f := loadedField(mu.Map); f == nil || f.Name() != "seen" {
+				if f := loadedField(mu.Map); f == nil || !fieldIs(f, "seen") {
 					return
 				}
 				n++
@@ -485,7 +485,7 @@ func init() {
 						}
 					}
 					if lk, ok := cnd.(*ssa.Lookup); ok {
-						if f := loadedField(lk.X); f != nil && f.Name() == "seen" {
+						if f := loadedField(lk.X); f != nil && fieldIs(f, "seen") {
 							hasLookup = true
 						}
 					}
@@ -516,7 +516,7 @@ func init() {
 					return
 				}
 				if lk, ok := ifi.Cond.(*ssa.Lookup); ok {
-					if f := loadedField(lk.X); f != nil && f.Name() == "seen" {
+					if f := loadedField(lk.X); f != nil && fieldIs(f, "seen") {
 						t := ifi.Block().Succs[0]
 						hasCall := false
 						for _, i2 := range t.Instrs {
@@ -558,13 +558,13 @@ func init() {
 					}
 					fromLayers := false
 					for _, o := range p.origins(layer, OriginOpts{}) {
-						if f := loadedField(o); f != nil && f.Name() == "chainFS" {
+						if f := loadedField(o); f != nil && fieldIs(f, "chainFS") {
 							fromLayers = true
 						}
 						if ld, ok := o.(*ssa.UnOp); ok && ld.Op == token.MUL {
 							if ia, ok := ld.X.(*ssa.IndexAddr); ok {
 								for _, oo := range p.origins(ia.X, OriginOpts{}) {
-									if f := loadedField(oo); f != nil && f.Name() == "chainFS" {
+									if f := loadedField(oo); f != nil && fieldIs(f, "chainFS") {
 										fromLayers = true
 									}
 								}
@@ -954,7 +954,7 @@ func init() {
 					return
 				}
 				fv := fieldVar(st.Addr)
-				if fv == nil || fv.Name() != "chainFS" {
+				if fv == nil || !fieldIs(fv, "chainFS") {
 					return
 				}
 				found = true
@@ -1025,7 +1025,7 @@ func init() {
 				}
 			}
 			eachInstr(fn, func(in ssa.Instruction) {
-				if b, ok := in.(*ssa.BinOp); ok && b.Op == token.EQL && (b.X == name || b.Y == name) {
+				if b, ok := in.(*ssa.BinOp); ok && (b.Op == token.EQL || b.Op == token.NEQ) && (b.X == name || b.Y == name) {
 					eq++
 					c.ok(fmt.Sprintf("resolveStruct: tag == name#%d", eq), p.instrPos(b), "string equality")
 				}
